@@ -158,6 +158,16 @@ func (s *MemoryAllocationStore) SaveAllocation(ctx context.Context, alloc Alloca
 		}
 	}
 
+	// Drop the IP index entry of a previous record for this subscriber in this
+	// pool when its address changes
+	if previous, exists := s.byPool[alloc.PoolID][alloc.SubscriberID]; exists && previous.Prefix != nil {
+		if oldKey := previous.Prefix.IP.String(); oldKey != ipKey {
+			if indexed, ok := s.byIP[oldKey]; ok && indexed.SubscriberID == alloc.SubscriberID && indexed.PoolID == alloc.PoolID {
+				delete(s.byIP, oldKey)
+			}
+		}
+	}
+
 	// Update pool index
 	if s.byPool[alloc.PoolID] == nil {
 		s.byPool[alloc.PoolID] = make(map[string]AllocationRecord)
